@@ -12,6 +12,7 @@ VERIF = os.path.dirname(os.path.dirname(os.path.abspath(__file__)))
 SPEC = os.path.join(VERIF, "spec")
 HARNESS = os.path.join(VERIF, "harness")
 ITV = os.path.join(HARNESS, "target", "debug", "itv")
+ITV_RAW = os.path.join(HARNESS, "target", "raw", "itv")
 REPO = "/repo"
 
 
@@ -51,19 +52,47 @@ def build_harness():
     log(f"[build] harness built from /repo working tree in {time.time() - t0:.1f}s")
 
 
-def run_harness(coll, driver, params, out, timeout=None):
+_built_raw = False
+_raw_lock = __import__("threading").Lock()
+
+
+def build_harness_raw():
+    """the same sources without optimisation (profile `raw`), built on first use"""
+    global _built_raw
+    with _raw_lock:
+        if _built_raw:
+            return
+        env = dict(os.environ, CARGO_NET_OFFLINE="true")
+        t0 = time.time()
+        p = subprocess.run(["cargo", "build", "--offline", "--quiet", "--profile", "raw"], cwd=HARNESS, env=env,
+                           stdout=subprocess.PIPE, stderr=subprocess.STDOUT, text=True)
+        if p.returncode != 0:
+            raise ToolError("unoptimised harness build failed:\n" + "\n".join(p.stdout.splitlines()[-15:]))
+        _built_raw = True
+        log(f"[build] unoptimised harness built in {time.time() - t0:.1f}s")
+
+
+def run_harness(coll, driver, params, out, timeout=None, raw=False):
     """Runs one driver.  A panic / abort / hang of the code under test is data: the run is repeated
     in journal mode and the call that did not return is appended as an event with out=aborted|timeout."""
     build_harness()
+    if raw:
+        build_harness_raw()
     if timeout is None:
         # watchdog for the code under test: a driver normally finishes within seconds
         timeout = 120 if os.environ.get("VERIF_TIER_EFFECTIVE", "quick") == "quick" else 900
     stats = out + ".stats"
-    base = [ITV, coll, driver, "--out", out, "--stats", stats] + [f"{k}={v}" for k, v in params.items()]
+    base = [ITV_RAW if raw else ITV, coll, driver, "--out", out, "--stats", stats] + [f"{k}={v}" for k, v in params.items()]
+
+    def small_stack():
+        # raw jobs run with the 1 MB stack of a spawned thread rather than the 8 MB of a main thread
+        import resource
+        resource.setrlimit(resource.RLIMIT_STACK, (1 << 20, 1 << 20))
 
     def once(extra, tmo):
         try:
-            p = subprocess.run(base + extra, stdout=subprocess.PIPE, stderr=subprocess.PIPE, text=True, timeout=tmo)
+            p = subprocess.run(base + extra, stdout=subprocess.PIPE, stderr=subprocess.PIPE, text=True, timeout=tmo,
+                               preexec_fn=small_stack if raw else None)
             return p.returncode, p.stderr
         except subprocess.TimeoutExpired:
             return "timeout", ""
